@@ -41,6 +41,10 @@ func rootsFor(prop, tier string) []Root {
 		}
 		add("VH_C10_Float", 0)
 		add("VH_C10_Float", 1)
+		rs = append(rs, Root{Prop: prop, Harness: "VH_C10_RowSign", Params: []int{3}, MaxDecs: 3000})
+		if thorough {
+			rs = append(rs, Root{Prop: prop, Harness: "VH_C10_RowSign", Params: []int{4}, MaxDecs: 4000})
+		}
 		add("VH_C10_Year")
 		add("VH_C10_Bit")
 		for _, via := range []int{0, 1} {
@@ -105,6 +109,9 @@ func rootsFor(prop, tier string) []Root {
 			if thorough || cfg == 0 || cfg == 7 || cfg == 13 || cfg == 4 {
 				rs = append(rs, Root{Prop: prop, Harness: "VH_C01_History", Params: []int{cfg, 0}, MaxDecs: 4000, MaxSteps: 40000000})
 			}
+			if thorough || cfg == 1 || cfg == 7 || cfg == 12 {
+				rs = append(rs, Root{Prop: prop, Harness: "VH_C01_History", Params: []int{cfg, 2}, MaxDecs: 4000, MaxSteps: 40000000})
+			}
 		}
 	case "C02":
 		big := func(h string, p ...int) {
@@ -131,6 +138,11 @@ func rootsFor(prop, tier string) []Root {
 			if thorough && f != 7 {
 				rs = append(rs, Root{Prop: prop, Harness: "VH_C04_Exit", Params: []int{3, f}, MaxDecs: 3000})
 			}
+		}
+		// Stream-level half: write-back of the position, the next attempt's dump request, exactly-once over attempts
+		rs = append(rs, Root{Prop: prop, Harness: "VH_C07_Attempts", Params: []int{1}, MaxDecs: 6000, MaxSteps: 30000000})
+		if thorough {
+			rs = append(rs, Root{Prop: prop, Harness: "VH_C07_Attempts", Params: []int{2}, MaxDecs: 8000, MaxSteps: 60000000})
 		}
 	case "C03":
 		rs = append(rs, Root{Prop: prop, Harness: "VH_C03_Resume", Params: []int{1}, MaxDecs: 2000})
@@ -192,6 +204,10 @@ func rootsFor(prop, tier string) []Root {
 		for st := 0; st < 6; st++ {
 			rs = append(rs, Root{Prop: prop, Harness: "VH_C08_Row", Params: []int{st}, MaxDecs: 3000})
 		}
+		rs = append(rs, Root{Prop: prop, Harness: "VH_C08_Retain", Params: []int{2}, MaxDecs: 2000, MaxSteps: 20000000})
+		if thorough {
+			rs = append(rs, Root{Prop: prop, Harness: "VH_C08_Retain", Params: []int{3}, MaxDecs: 2000, MaxSteps: 20000000})
+		}
 	case "C09":
 		for _, t := range []int{1, 2, 3, 4, 5, 7, 8, 9, 10, 11, 12, 13, 14, 15, 16, 17, 18, 19, 245, 247, 248, 249, 250, 251, 252, 253, 254, 255} {
 			add("VH_C09_LenAgree", t)
@@ -249,6 +265,19 @@ func rootsFor(prop, tier string) []Root {
 				}
 			}
 		}
+		for n := 1; n <= 5; n++ {
+			add("VH_C14_VarLen", n, 0)
+			add("VH_C14_VarLen", n, 3)
+		}
+		for _, n := range []int{127, 128, 129, 256} {
+			rs = append(rs, Root{Prop: prop, Harness: "VH_C14_LongString", Params: []int{n, 0, 0}, MaxDecs: 3000, MaxSteps: 20000000})
+			rs = append(rs, Root{Prop: prop, Harness: "VH_C14_LongString", Params: []int{n, 1, 1}, MaxDecs: 3000, MaxSteps: 20000000})
+		}
+		if thorough {
+			for _, n := range []int{255, 384, 16383, 16384} {
+				rs = append(rs, Root{Prop: prop, Harness: "VH_C14_LongString", Params: []int{n, 2, 0}, MaxDecs: 40000, MaxSteps: 400000000})
+			}
+		}
 		for lg := 0; lg < 2; lg++ {
 			rs = append(rs, Root{Prop: prop, Harness: "VH_C14_Struct", Params: []int{1, lg}, MaxDecs: 3000})
 			rs = append(rs, Root{Prop: prop, Harness: "VH_C14_Struct", Params: []int{2, lg}, MaxDecs: 3000})
@@ -268,12 +297,13 @@ func rootsFor(prop, tier string) []Root {
 			add("VH_C15_TableMap", w, 2, 3, 5, 0)
 			add("VH_C15_TableMap", w, 2, 0, 1, 3)
 			add("VH_C15_TableMap", w, 1, 255, 255, 8)
-			for _, n := range []int{250, 251, 252} {
+			for _, n := range []int{250, 251, 252, 256, 300} {
 				add("VH_C15_TableMapWide", w, n)
 			}
 			if thorough {
 				add("VH_C15_TableMap", w, 3, 2, 2, 1)
-				add("VH_C15_TableMapWide", w, 300)
+				add("VH_C15_TableMapWide", w, 255)
+				add("VH_C15_TableMapWide", w, 257)
 				add("VH_C15_TableMapWide", w, 600)
 			}
 		}
@@ -330,6 +360,13 @@ func rootsFor(prop, tier string) []Root {
 				}
 			}
 		}
+		for k := 1; k <= 2; k++ {
+			add("VH_C18_AddTwice", k, 0)
+			add("VH_C18_AddTwice", k, 2)
+		}
+		if thorough {
+			add("VH_C18_AddTwice", 3, 2)
+		}
 		add("VH_C18_AddSeq", 2)
 		add("VH_C18_AddSeq", 3)
 		if thorough {
@@ -380,6 +417,11 @@ func rootsFor(prop, tier string) []Root {
 	case "C17":
 		rs = append(rs, Root{Prop: prop, Harness: "VH_C17_Gate", Params: []int{1}, MaxDecs: 2000})
 		rs = append(rs, Root{Prop: prop, Harness: "VH_C17_Gate", Params: []int{2}, MaxDecs: 2000})
+		for _, n := range []int{0, 1, 4, 5, 18, 19, 20, 40} {
+			for where := 0; where < 3; where++ {
+				add("VH_C17_Real", n, where)
+			}
+		}
 		hi := 64
 		if thorough {
 			hi = 300
